@@ -360,7 +360,7 @@ class Gen:
         if sh == "anchor":
             return "nums", [ch.choice([0, 1, 0.5, 0.25]), ch.choice([0, 1, 0.5, 0.75])]
         if sh == "hex":
-            return "hex", ch.choice(HEXES)
+            return "hex", self.hexcolor()
         if sh == "bind":
             return "bind", "[" + ch.choice(BIND_NAMES) + "]"
         if sh == "expr":
@@ -376,7 +376,7 @@ class Gen:
                 r += "i"
             return "regex", r
         if sh == "hexpair":
-            return "hexpair", [ch.choice(HEXES), ch.choice(HEXES)]
+            return "hexpair", [self.hexcolor(), self.hexcolor()]
         if sh == "bindpair":
             return "binds", ["[" + ch.choice(BIND_NAMES) + "]", "[" + ch.choice(BIND_NAMES) + "]"]
         if sh == "mixedpair":
@@ -391,6 +391,14 @@ class Gen:
                 return "binds", [a, b]
             return "mixed", [a, b]
         return None
+
+    def hexcolor(self):
+        """#rgb, #rrggbb or #rrggbbaa with drawn digits in either letter case (the lengths grammar and schema agree on)"""
+        ch = self.ch
+        if ch.chance(1, 4):
+            return ch.choice(HEXES)
+        n = ch.choice([3, 6, 6, 8, 8])
+        return "#" + "".join(ch.choice("0123456789abcdefABCDEF") for _ in range(n))
 
     def _string_alt_unambiguous(self, slot, s):
         """For valid documents: a free string at a oneOf keyword must not also satisfy
